@@ -376,7 +376,7 @@ enum coupe_err coupe_karmarkar_karp(uintptr_t *partition, const coupe_data *weig
  *
  * The result is stored in `partition`.
  */
-enum coupe_err coupe_karkarkar_karp_complete(uintptr_t *partition, const coupe_data *weights,
+enum coupe_err coupe_karmarkar_karp_complete(uintptr_t *partition, const coupe_data *weights,
 		double tolerance);
 
 /************************/
